@@ -237,6 +237,20 @@ def run(tier, seed, report):
                         A = impl.Real(contents, ns=ns, **cfg)
                     A.run(store_object("p", ("ok", dt, "str", 0)))
                     A.run(store_metadata("p", ("ok", dt, "str", 0), None))
+                elif i < 2 * len(u.toks) * 2 + 6:
+                    # ... and the delete verb on each kind of pid: bound, tagged to a cid that was never stored (with a
+                    # document), listed by nobody (its object stored by another pid only)
+                    k_ = i - 2 * len(u.toks) * 2
+                    directed = ("deleteobject", u.toks[0])
+                    if k_ % 3 == 0:
+                        A.run(store_object("p", ("ok", u.toks[0], "str", 0)))
+                    elif k_ % 3 == 1:
+                        A.run(tag_object("p", u.never_cid))
+                        A.run(store_metadata("p", ("ok", u.toks[1], "str", 0), None))
+                    else:
+                        A.run(store_object("q", ("ok", u.toks[0], "str", 0)))
+                        A.run(store_object("p", ("ok", u.toks[0], "str", 0)))
+                        A.run(store_metadata("p", ("ok", u.toks[1], "str", 0), "f1"))
                 for c in u.history(rng.choice([0, 2, 4, 6]) if directed is None else 0, w):
                     A.run(c)
                 rootB = os.path.join(A.base, "storeB")
